@@ -187,6 +187,10 @@ pub fn on_get_return(w: &mut MWorld, opi: usize) {
             w.violate(&p, "unexpected_panic", d);
         }
     }
+    if res == OpRes::GetErr(ErrV::Closed) && !w.orc.close_invoked && !w.draining {
+        let p = w.sc.profile.clone();
+        w.violate(&p, "closed_only_when_closed", "get() returned Closed on a pool that was never closed".into());
+    }
     if is(w, "C03") && !w.draining {
         if let Some(v) = c03_on_return(w, opi) {
             if w.pending_violation.is_none() {
@@ -343,7 +347,9 @@ pub fn on_close_done(w: &mut MWorld, opi: usize) {
 pub fn on_retain_invoke(w: &mut MWorld, opi: usize) {
     if is(w, "C09") {
         c03_on_invoke(w, opi);
-        let maybe_empty = !w.orc.idle_prev_valid || w.orc.idle_prev.is_empty();
+        // (while another thread holds the pool lock retain() cannot take it: what the queue
+        // looks like at such an instant does not matter, the next readable state does)
+        let maybe_empty = w.orc.idle_prev_valid && w.orc.idle_prev.is_empty();
         let _ = w.orc.retain_open.insert(opi, maybe_empty);
     }
 }
@@ -359,6 +365,10 @@ pub fn on_retain_done(w: &mut MWorld, opi: usize) {
 }
 
 fn check_sync_panic(w: &mut MWorld, opi: usize) {
+    if let (Op::Take { detach_panics: true, .. }, Some(OpRes::Panicked { injected: true, .. })) = (&w.ops[opi].op, &w.ops[opi].result) {
+        // the injected panic of Manager::detach passing through Object::take()
+        return;
+    }
     if let Some(OpRes::Panicked { msg, .. }) = &w.ops[opi].result {
         let d = format!("{:?} panicked: {}", w.ops[opi].op, msg);
         let p = if msg.contains(" at dsim/src/") || msg.contains(" at simcore/") { "HARNESS".to_string() } else { w.sc.profile.clone() };
@@ -1623,7 +1633,12 @@ pub fn c09_take_done(w: &mut MWorld, opi: usize, id: u32) -> Option<Violation> {
             if *got != id {
                 return c09("take_returns_inner_value", format!("Object::take of #{id} returned #{got}"));
             }
+            if matches!(op.op, Op::Take { detach_panics: true, .. }) {
+                return c09("detach_called_once_on_take", format!("Object::take of #{id} returned although its Manager::detach was set to panic (detach not called?)"));
+            }
         }
+        // detach() panicked inside take(): the object is gone all the same, the books must say so
+        Some(OpRes::Panicked { injected: true, .. }) if matches!(op.op, Op::Take { detach_panics: true, .. }) => {}
         _ => return None,
     }
     if !overlapped(w, opi) && !w.orc.shrunk {
